@@ -96,6 +96,8 @@ class Bus(object):
         self.current_handler = None
         self.last_returned = None
         self.legal = True
+        self.multi_process = type(mediator).__name__ == "MultiProcessMediator"
+        self._mpq = []
         self._install()
 
     # -- helpers for monitors ---------------------------------------------------------------------------------------
@@ -142,11 +144,21 @@ class Bus(object):
 
         def extract_from_global_state(identifier):
             r = sh.extract_from_global_state(identifier)
+            if bus._mpq:
+                # multi-process mediator: the handlers run in worker processes, so the in-state is observed where the mediator
+                # builds it (the extractions directly after the activator call, in the order of the returned dictionary)
+                head = bus._mpq[0]
+                head[2].append(r)
+                if len(head[2]) == head[1]:
+                    bus.last_in_state[id(head[0])] = snap_branches(head[2])
+                    bus._mpq.pop(0)
             bus.emit("on_extract", identifier, r)
             return r
 
         def get_event_handlers_to_run(active, preceding):
             r = act.get_event_handlers_to_run(active, preceding)
+            if bus.multi_process:
+                bus._mpq = [[h, len(ids), []] for h, ids in r.items() if ids]
             for h, ids in r.items():
                 bus.pending[id(h)] = (h, ids)
             bus.emit("on_activator", active, preceding, r)
@@ -214,18 +226,21 @@ class Bus(object):
     # -- run ------------------------------------------------------------------------------------------------------------
     def run(self):
         from jellyfysh.base.exceptions import EndOfRun
-        self.emit("on_start")
         try:
-            self.mediator.run()
-        except EndOfRun:
-            self.stopped_by = "end of run"
-        except StopProbe:
-            pass
-        self.emit("on_end")
-        try:
-            self.mediator.post_run()
-        except Exception:
-            pass
+            self.emit("on_start")
+            try:
+                self.mediator.run()
+            except EndOfRun:
+                self.stopped_by = "end of run"
+            except StopProbe:
+                pass
+            self.emit("on_end")
+        finally:
+            # always: the multi-process mediator's workers are not daemonic and would outlive an aborted run
+            try:
+                self.mediator.post_run()
+            except Exception:
+                pass
         return self.stopped_by
 
 
@@ -238,6 +253,32 @@ def run_scenario(acc, spec, monitors_factory, seed=0, max_events=None, max_secon
     os.makedirs(workdir, exist_ok=True)
     cfg = scenario.build_config(spec, workdir)
     random.seed(f"scenario:{seed}:{spec.get('name', spec['kind'])}")
+    log_restore = None
+    if spec.get("debug_logging"):
+        # as `jellyfysh -vv --logfile /dev/null`: every `if self._logger_enabled_for_debug` branch of the mediator, the state
+        # handler, the scheduler, the activator and the handlers runs (the flags are read when the objects are constructed)
+        import logging
+        root = logging.getLogger("")
+        handler = logging.StreamHandler(open(os.devnull, "w"))
+        handler.setLevel(logging.DEBUG)
+        handler.setFormatter(logging.Formatter("%(asctime)s - %(levelname)s - %(name)s: %(message)s"))
+        log_restore = (root, root.level, handler)
+        root.setLevel(logging.DEBUG)
+        root.addHandler(handler)
+    try:
+        return _run_scenario(acc, spec, cfg, monitors_factory, seed, max_events, max_seconds, workdir)
+    finally:
+        if log_restore:
+            root, level, handler = log_restore
+            root.setLevel(level)
+            root.removeHandler(handler)
+            handler.stream.close()
+
+
+def _run_scenario(acc, spec, cfg, monitors_factory, seed, max_events, max_seconds, workdir):
+    import contextlib
+    import io
+    from vf import scenario
     try:
         with contextlib.redirect_stdout(io.StringIO()):
             mediator, unused = scenario.build_mediator(cfg)
